@@ -98,6 +98,18 @@ fn field_section<F: FieldLike>(ctx: &Ctx, out: &mut String, rng: &mut rand_chach
             let _ = writeln!(out, "{name} cmp/eq/ne/hash a={} b={} -> {:?}", hexs(a), hexs(bb), r);
         }
     }
+    // Zeroize (both builds implement it for the three fields): the wiped value reads back as zero
+    {
+        for k in 0..4u64 {
+            if (k as usize) % nshards != shard % 4 {
+                continue;
+            }
+            let v = rand_below(rng, &f.p);
+            let mut x = F::from_b(&v);
+            let r = g(|| { x.zeroize_field(); hx(&to_le(&x.to_b(), n)) });
+            let _ = writeln!(out, "{name} zeroize a={} -> {:?}", hexs(&v), r);
+        }
+    }
     // inversion and division on the inputs that need the most divstep iterations, and on the fold-symmetric ones
     for (zi, (v, class)) in zoo.iter().enumerate() {
         if !(*class == "divstep-worst-case" || *class == "limb-fold-symmetry") || zi % nshards != shard {
@@ -244,6 +256,29 @@ fn group_section(ctx: &Ctx, out: &mut String, rng: &mut rand_chacha::ChaCha20Rng
                 let _ = writeln!(out, "encode_to_curve(engineered e={}) {} -> {:?}", hexs(e), hexs(&r0), r);
             }
         }
+    }
+    // equality between affine (Z = 1) values that are the same element stored as different coset members
+    for ti in 0..48usize {
+        if ti % nshards != shard {
+            continue;
+        }
+        let mut er = rng_for(ctx.seed, "C12-affine-eq", 0, ti as u64);
+        let k = rand_below(&mut er, &c.r);
+        let p = c.mul(&k, &ctx.g);
+        let bytes = c.encode_spec(&p).unwrap();
+        let r = g(|| {
+            let d = dec(&bytes).expect("valid");
+            let nd = -d;
+            let rn = dec(&enc(&nd)).expect("valid");
+            let other = from_pt(c, &c.torque(&p));
+            format!("{} {} {} {} {} {}", nd == rn, rn == nd, d == other, other == d, d == from_pt(c, &p), (nd + d).is_identity())
+        });
+        let _ = writeln!(out, "affine-eq k={} -> {:?}", hexs(&k), r);
+    }
+    // the sentinel constant of Fq compared with itself / with ordinary elements
+    if shard == 0 {
+        let r = g(|| format!("{} {} {}", Fq::SENTINEL == Fq::SENTINEL, Fq::SENTINEL == Fq::ZERO, Fq::ONE == Fq::SENTINEL));
+        let _ = writeln!(out, "Fq sentinel-eq -> {:?}", r);
     }
     // Elligator collisions: distinct inputs with the same / opposite image (model-side inversion of the map)
     for ti in 0..24usize {
